@@ -7,7 +7,7 @@ CONSTANTS
   DirectMap = 1000
   EnvK = 2
   EnvC = 16
-  HoleCap = 2
+  HoleCap = 1
   Ids = {1, 2}
   Sizes = {1, 5, 11}
   Aligns = {2}
